@@ -226,7 +226,7 @@ CONFIG = {
         "level_note": "Conformance of a real database/driver is assumed, as the property itself does. Asset names are plain file-name-safe identifiers.",
         "assumptions": ["dates are whole UTC days from 2000 on and non-decreasing per asset, as the CSV date format, the SQL Get bound and Sync presuppose"],
         "gomaxprocs": [2],
-        "quick": {"checks": 400, "shards": 8},
+        "quick": {"checks": 1200, "shards": 8},
         "thorough": {"checks": 15000, "shards": 16, "timeout": 7200},
     },
     "C11": {
@@ -279,5 +279,23 @@ CONFIG = {
         "gomaxprocs": [16, 4],
         "quick": {"checks": 600, "shards": 16},
         "thorough": {"checks": 20000, "shards": 16, "timeout": 7200},
+    },
+    "C13": {
+        "race": True,
+        "rule": "rapid-generated scenarios: in-memory repository with 1-12 assets x 20-120 low-volatility snapshots (so that outcomes of different strategies lie within a percentage point of "
+                "each other), some assets with a block of snapshots dated >= 30 days before the look-back window and the rest >= 20 days inside it (never near its wall-clock edge); "
+                "1-5 scripted strategies (exact duplicates in 1/4 of the draws: ties) plus 0-3 registry strategies of distinct types; workers 1-16; LastDays in {200,365,500}; report in "
+                "{recording, DataReport, HTMLReport without / with per-strategy pages}. Built with -race. Oracle: recording report: begin first, end last, per asset begin < its writes "
+                "< end, exactly one write per (asset, strategy); DataReport: one result per pair, outcome bitwise / last action / action list equal to evaluating a fresh strategy "
+                "directly on the in-window snapshots; HTML: parsed <asset>.html and index.html rows: one per strategy / asset, printed outcomes equal to direct evaluation, in "
+                "non-increasing order, first row maximal, index row = that asset's best; no race report, no crash. Non-trivial: workers >= 2, >= 4 assets and two outcomes closer than "
+                "1 point. Distinct = whole scenario.",
+        "technique": "property-based testing (rapid) of backtest runs against direct evaluation, protocol recording and parsed HTML rankings, under the Go race detector",
+        "level_text": "Generated repositories, strategy lists, worker counts and report kinds are run through the backtester; results are compared with direct evaluation (so they are the same for any worker count), the notification protocol is checked on a recording report, and the HTML rankings are parsed and checked for order and maximality with outcomes engineered to lie closer than one point. Worker interleavings are sampled under the race detector.",
+        "level_note": "The look-back window is taken from the wall clock inside the library; generated dates keep a margin of >= 20 days from its edge. Rankings are compared on the two-decimal printed outcomes.",
+        "assumptions": ["strategy names are unique within a run (as file names of the HTML pages presuppose)"],
+        "gomaxprocs": [16, 4],
+        "quick": {"checks": 60, "shards": 16},
+        "thorough": {"checks": 1500, "shards": 16, "timeout": 7200},
     },
 }
